@@ -281,7 +281,7 @@ class Ctx:
         return paths
 
     # ---- obligations
-    def require(self, p, cond, what, known=()):
+    def require(self, p, cond, what, known=(), judge=None):
         """Obligation: on path p, cond holds for every value of the symbolic inputs.
         known: [(finding_id, predicate)] - inputs matching a predicate whose id is listed in
         known_findings.txt are excluded and reported as KNOWN-FINDING instead."""
@@ -313,7 +313,7 @@ class Ctx:
         if r == "unknown":
             self.inconclusive.append("%s/%s: solver unknown" % (self.name, what))
             return False
-        self._counterexample(p, m, what)
+        self._counterexample(p, m, what, judge)
         return False
 
     def fail(self, p, what):
@@ -481,7 +481,7 @@ class Ctx:
                     return False
         return True
 
-    def _counterexample(self, p, m, what):
+    def _counterexample(self, p, m, what, judge=None):
         desc = self._describe(p, m)
         desc["violated"] = what
         desc["check"] = self.name
@@ -498,6 +498,11 @@ class Ctx:
                     confirmed = None
                 else:
                     confirmed = self.outcomes_agree(mo, no)
+                    if confirmed is False and judge is not None and no["status"] == mo["status"] and not judge(no, m):
+                        # the native run differs from the model only in values derived from code/stack addresses, and it
+                        # violates the same obligation when judged directly (judge = "native outcome satisfies the property")
+                        confirmed = True
+                        desc["replay_note"] = "native outcome differs in address-dependent values; it violates the same obligation"
             except Exception as e:  # pragma: no cover
                 desc["native_error"] = repr(e)
         desc["replayed"] = confirmed
